@@ -94,7 +94,7 @@ func profileFor(check, tier, variant string) *CheckDef {
 		d.Concurrent, d.Unshielded, d.ForceSegVer = true, true, 2
 		d.MaxWindows = 4000
 	case "C15knownStats":
-		// dedicated probe of the listed Stats() finding
+		// dedicated probe of Stats() under concurrency (was a known finding, repaired by 7d38cc5)
 		d.Check = "C15"
 		d.MinClients, d.MaxClients = 3, 4
 		d.MinOps, d.MaxOps = 4, 8
